@@ -6,10 +6,11 @@ import SymmModel.Driver.FermiOpsH
 import SymmModel.Driver.ReshapeH
 import SymmModel.Driver.CacheH
 import SymmModel.Driver.HeapH
+import SymmModel.Driver.Heap2H
 open Lean SymmModel.Driver
 
 /-- plug-in handlers of the self-contained property models are tried in order -/
-def handlers : List (String → Json → Option (D Json)) := [handleCore, handleSym, handleHam, handleTrunc, handleFermiOps, handleReshape, handleCache, handleHeap]
+def handlers : List (String → Json → Option (D Json)) := [handleCore, handleSym, handleHam, handleTrunc, handleFermiOps, handleReshape, handleCache, handleHeap, handleHeap2]
 
 def handleLine (line : String) : Json :=
   match Json.parse line with
